@@ -16,11 +16,27 @@
 //  samplers            : solid/hollow/gaussSphereRand and gaussRand for V2f V3f V2d V3d x {Rand32, Rand48}:
 //                        finite; |v|^2 <= 1 + 4 eps; ||v| - 1| <= 4 eps (length: n+1 roundings, division: 1 more
 //                        per component => < 2 eps; 4 eps as fixed in DESIGN.md).
+//  samplers-scripted   : the samplers are templates on the generator: they are driven by a stub whose nextf(-1,1)
+//                        replays EVERY tuple over the boundary alphabet {+-1, +-(1-ulp), +-sqrt(1/2), +-denorm_min, +-0,
+//                        2^-75 (float: its square underflows to 0) [, 2^-540 for double]} and then a benign value, so
+//                        that the rejection loops see length == 0, length2 == 0 by underflow, length exactly 1 and just
+//                        above/below 1 — states no seed reaches. Same relations as `samplers`; V2, V3, V4 x float, double
+//                        x stub returning float (Rand32-like) or double (Rand48-like).
+//  nextf-range-extremes: Rand32: all 2^23 values of f (state written directly) x all 16 ranges; Rand48: every successor
+//                        state with a single non-zero word, all-zeros (f = 0), all-ones (f = max) and the boundary
+//                        alphabet x all 16 ranges: nextf(a,b) between a and b (same 2-ulp bound as generators-seeds).
+//  rand32-all-states   : "every seed and every position" of a 32-bit generator is: every one of the 2^32 states.
+//                        thorough: ALL 2^32 states (quick: 2^22 boundary and strided states) x {nextb, nexti,
+//                        nextf(a,b) on the range selected by the state}: values vs the documented LCG, ranges.
+//  rand32-all-states-samplers : one draw of solid/hollow/gaussSphereRand<V3f> and gaussRand from 2^30 states spread
+//                        over the whole state space (thorough; quick: the same 2^22 states): sampler relations.
 //  rand32-full-period  : (thorough) the orbit of the 32-bit state returns to its start after exactly 2^32 steps
 //                        (documented "period length of 2^32").
 #include "c18.hpp"
 #include <ImathRandom.h>
 #include <ImathVec.h>
+#include <ImathVec.h>
+#include <atomic>
 #include <stdlib.h>
 
 using namespace vf;
@@ -100,6 +116,118 @@ template <class V, class Rand> void sampler_checks (unsigned long seed, const st
         if (!same) R ().fail ("samplers.pure-function-of-seed<" + name + ">", at);
     }
 }
+
+// ---- scripted generator --------------------------------------------------------------------------------
+// A conforming generator as far as the samplers can tell: nextf(lo, hi) returns a value in [lo, hi] (all scripted
+// values lie in [-1, 1]; the samplers only ever ask for nextf(-1, 1)).
+template <class F> struct ScriptRand
+{
+    const F* script;
+    int      len, pos;
+    F        benign;
+    ScriptRand (const F* s, int n, F b) : script (s), len (n), pos (0), benign (b) {}
+    F nextf (F, F) { F v = pos < len ? script[pos] : benign; ++pos; return v; }
+};
+
+template <class F> std::vector<F> script_alphabet ()
+{
+    typedef std::numeric_limits<F> L;
+    const F one = F (1), h = std::sqrt (F (0.5));
+    std::vector<F> v = {-one, std::nextafter (-one, F (0)), -h, -L::denorm_min (), -F (0), F (0), L::denorm_min (), (F) std::ldexp (1.0, -75), h, std::nextafter (one, F (0)), one};
+    if (sizeof (F) == 8) v.push_back ((F) std::ldexp (1.0, -540)); // square underflows in double
+    return v;
+}
+
+struct ScriptTally { long long scripts = 0, calls = 0, zero_tuple = 0, underflow_tuple = 0, unit_component = 0, subnormal_component = 0, rejected_first = 0; };
+
+// all scripts of length n over A, for one sampler (which: 0 solid, 1 hollow, 2 gauss, 3 gaussSphere)
+template <class V, class F> void scripted (int which, const std::string& name, ScriptTally& t)
+{
+    typedef typename V::BaseType T;
+    const LD       EPS = (LD) std::numeric_limits<T>::epsilon ();
+    const int      dim = (int) V::dimensions ();
+    const int      n   = which == 0 || which == 1 ? dim : (which == 2 ? 2 : dim + 2);
+    std::vector<F> A   = script_alphabet<F> ();
+    const uint64_t K = A.size ();
+    uint64_t       total = 1;
+    for (int i = 0; i < n; ++i) total *= K;
+    const char* WN[4] = {"solidSphereRand", "hollowSphereRand", "gaussRand", "gaussSphereRand"};
+    for (uint64_t code = 0; code < total; ++code)
+    {
+        F        sc[8];
+        uint64_t c = code;
+        bool     all_zero = true, sub = false, unit = false, tiny = false;
+        for (int i = 0; i < n; ++i)
+        {
+            sc[i] = A[c % K]; c /= K;
+            T v = (T) sc[i]; // what the sampler stores (gaussRand stores float)
+            float vf = (float) sc[i];
+            if (i < (which == 2 ? 2 : dim) && v != 0) all_zero = false;
+            if ((v != 0 && std::fabs (v) < std::numeric_limits<T>::min ()) || (vf != 0 && std::fabs (vf) < std::numeric_limits<float>::min ())) sub = true;
+            if (std::fabs (v) == 1) unit = true;
+            if (v != 0 && v * v == 0) tiny = true;
+        }
+        ++t.scripts;
+        if (all_zero) ++t.zero_tuple;
+        if (tiny) ++t.underflow_tuple;
+        if (unit) ++t.unit_component;
+        if (sub) ++t.subnormal_component;
+        ScriptRand<F> r (sc, n, F (0.25));
+        std::string   site = std::string (WN[which]) + "<" + name + ">.scripted-generator";
+        auto in = [&] () { std::string o = name + " nextf(-1,1) script:"; for (int i = 0; i < n; ++i) o += " " + std::string (Msg () << sc[i]); return o + " then 0.25 ..."; };
+        ++t.calls;
+        switch (which)
+        {
+            case 0:
+            {
+                V v = IM::solidSphereRand<V> (r);
+                if (!finite_vec (v) || !(len2 (v) <= 1 + 4 * EPS)) R ().fail (site, in (), "finite, |v|^2 <= 1", fmt (len2 (v)));
+                break;
+            }
+            case 1:
+            {
+                V v = IM::hollowSphereRand<V> (r);
+                // a non-zero subnormal component has no relative accuracy to speak of (and no generator of the library
+                // returns one): only finiteness is demanded for such scripts
+                if (!finite_vec (v)) R ().fail (site, in (), "finite", fmt (len2 (v)));
+                else if (!sub && !(fabsl (sqrtl (len2 (v)) - 1) <= 4 * EPS)) R ().fail (site, in (), "|v| = 1 +- 4 eps", fmt (sqrtl (len2 (v))));
+                break;
+            }
+            case 2:
+            {
+                float f = IM::gaussRand (r);
+                if (!(f - f == 0)) R ().fail (site, in (), "finite", fmt (f));
+                break;
+            }
+            default:
+            {
+                V v = IM::gaussSphereRand<V> (r);
+                if (!finite_vec (v)) R ().fail (site, in (), "finite", fmt (len2 (v)));
+                break;
+            }
+        }
+        if (r.pos > n) ++t.rejected_first; // the loop went past the script: at least one tuple was rejected
+    }
+}
+
+template <class V, class F> void scripted_all (const std::string& name, ScriptTally& t)
+{
+    for (int which = 0; which < 4; ++which) scripted<V, F> (which, name, t);
+}
+
+// nextf(a,b) bound with the slack precomputed (same bound as in_range)
+template <class T> struct RangeBox
+{
+    LD lo, hi;
+    RangeBox (T a, T b)
+    {
+        LD m  = std::max (fabsl ((LD) a), fabsl ((LD) b));
+        LD sl = 2 * ex::ulp_at<T> (m);
+        lo = std::min ((LD) a, (LD) b) - sl; hi = std::max ((LD) a, (LD) b) + sl;
+    }
+    bool ok (T got) const { return (LD) got >= lo && (LD) got <= hi; }
+};
+inline float clampf (double v) { const double FM = 3.4028234663852886e38; return (float) std::max (-FM, std::min (FM, v)); }
 
 } // namespace
 
@@ -278,10 +406,96 @@ void c18_generator_stages ()
             sampler_checks<IM::V3f, IM::Rand48> (seed, "V3f,Rand48", n);
             sampler_checks<IM::V2d, IM::Rand48> (seed, "V2d,Rand48", n);
             sampler_checks<IM::V3d, IM::Rand48> (seed, "V3d,Rand48", n);
+            sampler_checks<IM::V4f, IM::Rand32> (seed, "V4f,Rand32", n);
+            sampler_checks<IM::V4d, IM::Rand32> (seed, "V4d,Rand32", n);
+            sampler_checks<IM::V4f, IM::Rand48> (seed, "V4f,Rand48", n);
+            sampler_checks<IM::V4d, IM::Rand48> (seed, "V4d,Rand48", n);
         }
-        R ().add ("states", (long long) S.size () * 8); R ().add ("evaluations", n); R ().add ("transitions", n);
+        R ().cls ("samplers.dimension-4", (long long) S.size () * 4);
+        R ().add ("states", (long long) S.size () * 12); R ().add ("evaluations", n); R ().add ("transitions", n);
         R ().add ("sampler_draws", n);
-        R ().stage_done (std::to_string (S.size ()) + " seeds x {V2f,V3f,V2d,V3d} x {Rand32,Rand48} x 4 draws of solid/hollow/gaussSphereRand and gaussRand");
+        R ().stage_done (std::to_string (S.size ()) + " seeds x {V2f,V3f,V4f,V2d,V3d,V4d} x {Rand32,Rand48} x 4 draws of solid/hollow/gaussSphereRand and gaussRand");
+    }
+
+    // ---------- samplers driven by the scripted generator
+    if (R ().stage ("samplers-scripted"))
+    {
+        ScriptTally t;
+        scripted_all<IM::V2f, float> ("V2f,float-script", t);
+        scripted_all<IM::V3f, float> ("V3f,float-script", t);
+        scripted_all<IM::V4f, float> ("V4f,float-script", t);
+        scripted_all<IM::V2d, float> ("V2d,float-script", t);
+        scripted_all<IM::V3d, float> ("V3d,float-script", t);
+        scripted_all<IM::V2f, double> ("V2f,double-script", t);
+        scripted_all<IM::V3f, double> ("V3f,double-script", t);
+        scripted_all<IM::V2d, double> ("V2d,double-script", t);
+        scripted_all<IM::V3d, double> ("V3d,double-script", t);
+        scripted_all<IM::V4d, double> ("V4d,double-script", t);
+        R ().cls ("samplers.scripted.first-tuple-all-zeros(length==0)", t.zero_tuple);
+        R ().cls ("samplers.scripted.square-underflows-to-zero", t.underflow_tuple);
+        R ().cls ("samplers.scripted.component-exactly-+-1", t.unit_component);
+        R ().cls ("samplers.scripted.subnormal-component", t.subnormal_component);
+        R ().cls ("samplers.scripted.rejection-loop-repeated", t.rejected_first);
+        R ().add ("states", t.scripts); R ().add ("evaluations", t.calls); R ().add ("transitions", t.calls);
+        R ().stage_done ("every nextf(-1,1) script of length dim (solid, hollow), 2 (gauss), dim+2 (gaussSphere) over the 11-value (double: 12) boundary alphabet, then 0.25: V2/V3/V4 x float/double x float-/double-returning stub");
+    }
+
+    // ---------- nextf(a,b) at the extremes of f
+    if (R ().stage ("nextf-range-extremes"))
+    {
+        const size_t NR = sizeof (RANGES) / sizeof (RANGES[0]);
+        const uint32_t N = 1u << 23;
+        std::atomic<long long> n32 (0), f0 (0), fmax (0);
+        std::vector<RangeBox<float>> B32;
+        std::vector<std::pair<float, float>> R32;
+        for (size_t k = 0; k < NR; ++k) { float lo = clampf (RANGES[k].a), hi = clampf (RANGES[k].b); R32.push_back ({lo, hi}); B32.push_back (RangeBox<float> (lo, hi)); }
+        bool complete = parallel_chunks (N, 1u << 16, [&] (uint64_t lo, uint64_t hi, unsigned) {
+            long long z = 0, mx = 0;
+            for (uint64_t s = lo; s < hi; ++s)
+            {
+                uint32_t m = lcg32 ((uint32_t) s) & 0x7fffffu;
+                if (m == 0) ++z;
+                if (m == N - 1) ++mx;
+                for (size_t k = 0; k < NR; ++k)
+                {
+                    IM::Rand32 r (0);
+                    r._state = (unsigned long) s;
+                    float got = r.nextf (R32[k].first, R32[k].second);
+                    if (!B32[k].ok (got))
+                        R ().fail (m == 0 ? "Rand32::nextf(a,b).range.f=0" : (m == N - 1 ? "Rand32::nextf(a,b).range.f=max" : "Rand32::nextf(a,b).range.all-f"),
+                                   "_state=" + std::to_string (s) + " a=" + fmt (R32[k].first) + " b=" + fmt (R32[k].second), "between a and b (2 ulp)", fmt (got));
+                }
+            }
+            n32 += (long long) (hi - lo) * (long long) NR; f0 += z; fmax += mx;
+        });
+        // Rand48: successor states X' (f is a function of X' alone)
+        std::vector<uint64_t> X = {0, M48};
+        for (int w = 0; w < 3; ++w)
+            for (uint64_t v = 1; v < 65536; ++v) X.push_back (v << (16 * w));
+        for (uint64_t u : state_boundary_alphabet ()) X.push_back (u);
+        long long n48 = 0, z48 = 0, m48 = 0;
+        for (uint64_t x : X)
+        {
+            uint64_t pre = lcg_prev (x);
+            if (x == 0) ++z48;
+            if (x == M48) ++m48;
+            for (size_t k = 0; k < NR; ++k)
+            {
+                IM::Rand48 r (0);
+                unpack (pre, r._state);
+                double got = r.nextf (RANGES[k].a, RANGES[k].b);
+                ++n48;
+                if (pack (r._state) != x) R ().fail ("oracle.selfcheck.lcg-inverse", st (pre));
+                if (!in_range<double> (got, RANGES[k].a, RANGES[k].b))
+                    R ().fail (x == 0 ? "Rand48::nextf(a,b).range.f=0" : (x == M48 ? "Rand48::nextf(a,b).range.f=max" : "Rand48::nextf(a,b).range.boundary-states"),
+                               "successor state " + st (x) + " a=" + fmt (RANGES[k].a) + " b=" + fmt (RANGES[k].b), "between a and b (2 ulp)", fmt (got));
+            }
+        }
+        R ().cls ("nextf(a,b).rand32.f=0", f0.load ()); R ().cls ("nextf(a,b).rand32.f=1-2^-23", fmax.load ());
+        R ().cls ("nextf(a,b).rand48.f=0", z48); R ().cls ("nextf(a,b).rand48.f=max", m48);
+        R ().add ("states", (long long) N + (long long) X.size ()); R ().add ("evaluations", n32.load () + n48); R ().add ("transitions", n32.load () + n48);
+        if (complete) R ().stage_done ("Rand32: all 2^23 values of f x 16 ranges; Rand48: " + std::to_string (X.size ()) + " successor states (all-zeros, all-ones, single non-zero word, boundary alphabet) x 16 ranges: nextf(a,b) between a and b");
+        else R ().stage_partial ("cut short by the deadline");
     }
 
     // ---------- full period of Rand32 (thorough)
@@ -302,5 +516,88 @@ void c18_generator_stages ()
         R ().add ("rand32_orbit_steps", (long long) i);
         if (!cut) R ().stage_done ("orbit of the 32-bit state from 0: first return after exactly 2^32 steps (all 2^32 states visited once)");
         else R ().stage_partial (std::to_string (i) + " of 2^32 steps");
+    }
+
+    // ---------- every state of Rand32 (two stages: the cheap generator calls first, then the samplers)
+    for (int part = 0; part < 2; ++part)
+    {
+        if (!R ().stage (part == 0 ? "rand32-all-states" : "rand32-all-states-samplers")) continue;
+        const size_t NR = sizeof (RANGES) / sizeof (RANGES[0]);
+        std::vector<RangeBox<float>> B32;
+        std::vector<std::pair<float, float>> R32;
+        for (size_t k = 0; k < NR; ++k) { float lo = clampf (RANGES[k].a), hi = clampf (RANGES[k].b); R32.push_back ({lo, hi}); B32.push_back (RangeBox<float> (lo, hi)); }
+        const bool     all = R ().thorough ();
+        // quick: 2^20 lowest, 2^20 highest, 2^20 around 2^31, 2^20 strided by the prime 4093 => 2^22 states
+        // thorough: the generator calls on ALL 2^32 states; the samplers (250 ns per state) on every fourth state, the
+        // residue mod 4 rotating with bits 10..11 of the index => 2^30 states spread over the whole state space
+        const uint64_t NQ = 1ull << 20, TOTAL = all ? (part == 0 ? (1ull << 32) : (1ull << 30)) : 4 * NQ;
+        auto state_of = [&] (uint64_t i) -> uint32_t {
+            if (all) return part == 0 ? (uint32_t) i : (uint32_t) (4 * i + ((i >> 10) & 3));
+            switch (i / NQ)
+            {
+                case 0: return (uint32_t) i;
+                case 1: return (uint32_t) (0xffffffffull - (i - NQ));
+                case 2: return (uint32_t) (0x80000000ull - NQ / 2 + (i - 2 * NQ));
+                default: return (uint32_t) ((i - 3 * NQ) * 4093ull + 0x00100000ull);
+            }
+        };
+        const LD EPS = (LD) std::numeric_limits<float>::epsilon ();
+        std::atomic<long long> done (0), c_hi (0), c_top (0), c_rej (0);
+        bool complete = parallel_chunks (TOTAL, 1ull << 18, [&] (uint64_t lo, uint64_t hi, unsigned) {
+            long long nhi = 0, top = 0, rej = 0;
+            for (uint64_t i = lo; i < hi; ++i)
+            {
+                const uint32_t s = state_of (i), m = lcg32 (s);
+                // the bits of _state above 32 are not part of the generator's state: set for odd s, clear for even s
+                const unsigned long s64 = (s & 1u) ? (0xffffffff00000000ul | s) : (unsigned long) s;
+                if (s & 1u) ++nhi;
+                if (m >> 31) ++top;
+                IM::Rand32 r (0);
+                if (part == 0)
+                {
+                    r._state = s64;
+                    bool b = r.nextb ();
+                    if (b != ((m >> 31) != 0)) R ().fail ("Rand32::nextb.all-states", "_state=" + std::to_string (s64), fmt ((m >> 31) != 0), fmt (b));
+                    r._state = s64;
+                    unsigned long v = r.nexti ();
+                    if (v != m) R ().fail ("Rand32::nexti.all-states", "_state=" + std::to_string (s64), fmt (m), fmt (v));
+                    r._state = s64;
+                    const size_t k = (s >> 25) % NR; // the range is selected by state bits that do not enter f's 23 mantissa bits
+                    float got = r.nextf (R32[k].first, R32[k].second);
+                    if (!B32[k].ok (got)) R ().fail ("Rand32::nextf(a,b).range.all-states", "_state=" + std::to_string (s64) + " a=" + fmt (R32[k].first) + " b=" + fmt (R32[k].second), "between a and b (2 ulp)", fmt (got));
+                }
+                else
+                {
+                    // one draw of each V3f sampler from this state
+                    r._state = s64;
+                    IM::V3f sv = IM::solidSphereRand<IM::V3f> (r);
+                    if ((uint32_t) r._state != lcg32 (lcg32 (m))) ++rej; // more than three draws: the first tuple was rejected
+                    IM::V3f hv = IM::hollowSphereRand<IM::V3f> (r);
+                    IM::V3f gv = IM::gaussSphereRand<IM::V3f> (r);
+                    float   gf = IM::gaussRand (r);
+                    if (!finite_vec (sv) || !(len2 (sv) <= 1 + 4 * EPS)) R ().fail ("solidSphereRand<V3f,Rand32>.all-states", "_state=" + std::to_string (s64), "|v|^2 <= 1", fmt (len2 (sv)));
+                    if (!finite_vec (hv) || !(fabsl (sqrtl (len2 (hv)) - 1) <= 4 * EPS)) R ().fail ("hollowSphereRand<V3f,Rand32>.all-states", "_state=" + std::to_string (s64), "|v| = 1 +- 4 eps", fmt (sqrtl (len2 (hv))));
+                    if (!finite_vec (gv)) R ().fail ("gaussSphereRand<V3f,Rand32>.all-states", "_state=" + std::to_string (s64), "finite", fmt (len2 (gv)));
+                    if (!(gf - gf == 0)) R ().fail ("gaussRand<Rand32>.all-states", "_state=" + std::to_string (s64), "finite", fmt (gf));
+                }
+            }
+            done += (long long) (hi - lo); c_hi += nhi; c_top += top; c_rej += rej;
+        });
+        const std::string what = all ? (part == 0 ? "ALL 2^32 states" : "2^30 states (every fourth state, residue rotating)") : "2^22 states (2^20 lowest, 2^20 highest, 2^20 around 2^31, 2^20 strided by 4093)";
+        if (part == 0)
+        {
+            R ().cls ("rand32.all-states.upper-state-bits-set", c_hi.load ());
+            R ().cls ("rand32.all-states.successor-top-bit-set", c_top.load ());
+            R ().add ("rand32_states_swept", done.load ());
+        }
+        else
+        {
+            R ().cls ("rand32.all-states.samplers.first-tuple-rejected", c_rej.load ());
+            R ().add ("rand32_states_swept_with_samplers", done.load ());
+        }
+        const long long per = part == 0 ? 3 : 4;
+        R ().add ("states", done.load ()); R ().add ("evaluations", done.load () * per); R ().add ("transitions", done.load () * per);
+        if (complete) R ().stage_done (what + " of Rand32 x " + (part == 0 ? "{nextb, nexti, nextf(a,b) on the range selected by the top state bits}: documented LCG values, ranges" : "one draw of solid/hollow/gaussSphereRand<V3f> and gaussRand: finite, in the ball, on the sphere"));
+        else R ().stage_partial (std::to_string (done.load ()) + " of " + std::to_string (TOTAL) + " states");
     }
 }
